@@ -372,7 +372,10 @@ Definition tw_reset (cx : wctx) (c : rwc) (w : tw) : tw :=
 (** message.advanceToStage for a response message: sameCompression is always true, the
     decompressor and compressor are the same pool (the backend's response compression) *)
 Definition advance_resp (cx : wctx) (has_comp was_comp : bool) (b : bytes) : bytes + ecls :=
-  if w_same_resp_codec cx then inl b else
+  let must := has_comp && match w_cenv cx with None => true | Some _ => false end in
+  if w_same_resp_codec cx then
+    if was_comp || negb must then inl b else inl (o_compress (w_or cx) b)
+  else
   let plain := if was_comp && has_comp && negb (Nat.eqb (length b) 0)
                then match o_decompress (w_or cx) b with Some p => inl p | None => inr (decomp_class (w_or cx) b) end else inl b in
   match plain with
@@ -383,7 +386,7 @@ Definition advance_resp (cx : wctx) (has_comp was_comp : bool) (b : bytes) : byt
       | Some m =>
           match o_encode (w_or cx) m with
           | None => inr EOther
-          | Some e => inl (if was_comp && has_comp then o_compress (w_or cx) e else e)
+          | Some e => inl (if (was_comp || must) && has_comp then o_compress (w_or cx) e else e)
           end
       end
   end.
@@ -595,7 +598,9 @@ Definition rw_write_header (cx : wctx) (status : Z) (r : rw) : rw :=
               let c3 := if end_must_be_in_headers (w_client cx)
                         then mkRwc (c_hdr c2) (c_flushed c2) (c_end_written c2) (c_meta c2) (c_err c2) (Some []) (c_resp_comp c2) (c_out c2)
                         else flush_headers cx c2 in
-              mkRw c3 true clen (if w_same_resp_codec cx then BEnv ew0 else BTrans tw0)
+              let mixed := negb (Nat.eqb (length (c_resp_comp c2)) 0) &&
+                           match w_cenv cx, w_senv cx with None, Some _ => true | _, _ => false end in
+              mkRw c3 true clen (if w_same_resp_codec cx && negb mixed then BEnv ew0 else BTrans tw0)
         end
   end.
 
